@@ -307,8 +307,10 @@ def main(argv):
             src = open(os.path.join(VERIF, inc)).read()
             n_ext = len(re.findall(r"external_body", src))
             n_assume = len(re.findall(r"\b(assume|admit)\s*\(", src))
-            if n_ext or n_assume:
-                trusted.add("%s: %d external_body, %d assume/admit" % (inc, n_ext, n_assume))
+            n_aspec = len(re.findall(r"\bassume_specification\b", src))
+            n_axiom = len(re.findall(r"\baxiom\b|broadcast proof fn axiom_", src))
+            if n_ext or n_assume or n_aspec:
+                trusted.add("%s: %d external_body, %d assume/admit, %d assume_specification" % (inc, n_ext, n_assume, n_aspec))
         n_ext = len(re.findall(r"external_body", open(os.path.join(VERIF, "contracts", u + ".vc")).read()))
         if n_ext:
             trusted.add("contracts/%s.vc glue: %d external_body" % (u, n_ext))
